@@ -131,6 +131,22 @@ def enumerate_pairs(tier, rng):
     for _ in range(40 if tier == "quick" else 600):
         s = rng.choice([1e-9, 1e-3, 1e3, 1e6])
         yield rand_dgm(rng, rng.randint(1, 3), scale=s), rand_dgm(rng, rng.randint(1, 3), scale=s), "scale"
+    # ties up to rounding: decimal-grid bars against the same bar shrunk / widened / shifted by grid amounts - candidate costs that are
+    # equal as real numbers but are computed along different routes and so may differ in the last bit
+    k = 0
+    for bi in range(0, 10):
+        for li in range(3, 15, 1 if tier != "quick" else 2):
+            for ei in (1, 2):
+                b, d, e = bi / 10.0, (bi + li) / 10.0, ei / 10.0
+                if d - e <= b + e:
+                    continue
+                k += 1
+                extra = [[0.3, 0.5]] if k % 3 == 0 else []
+                yield [[b, d]] + extra, [[b + e, d - e]], "decimal-ties"
+                if k % 2 == 0:
+                    yield [[b + e, d - e]] + extra, [[b, d], [0.2, 0.4]], "decimal-ties"
+                if k % 5 == 0:
+                    yield [[b, d], [b + e, d]], [[b + e, d + e]] + extra, "decimal-ties"
     # infinite deaths at every position (first, between finite points, last, several, all), in either or both diagrams
     for _ in range(80 if tier == "quick" else 1500):
         lat = rng.random() < 0.5
